@@ -59,7 +59,7 @@ func VerifC13Trim() {
 	names := []string{
 		pfx + strings.Repeat("0", 62) + "-a",
 		pfx + strings.Repeat("1", 62) + "-d",
-		"trim.txt", "README", "x-b", "-a", "fuzz", pfx + "-ab",
+		"trim.txt", "README", "x-b", "-a", "fuzz", pfx + "-ab", "a", "d",
 	}
 	n := rt.IntRange(0, rt.Param("E", 3))
 	var files []*vEntryFile
